@@ -169,9 +169,47 @@ def run(ctx):
             ne = results.get((st, 'NotEqual', a, b))
             if ne is not None and ne == top:
                 ctx.fail('oracle', ['OP', '-', st, 'NotEqual', 'decline', a, b], impl=ne, expect='negation of ==', note='!= is not the negation of ==')
+    # shared sub-values: the same value (one address) used several times inside one operand, built at run time from `$`,
+    # compared with the same structure spelled out literally (separate copies) — "regardless of how, where or in which order
+    # the values were created". Programs through the whole pipeline on both stores.
+    if not ctx.replay:
+        import progsuite
+        VALS = ['(1 <> 2)', '(1, 2)', '(1 2 3)', '"ab"', "'ab'", '(:a = 5)', '((1 <> 2) <> 3)', '(1, (2 <> 3))', '5', ':s', '(:a :b)', '(,)', '""']
+        SHAPES = ['($ <> $)', '($, $)', '($ = $)', '(($ <> $) <> $)', '($ <> ($ <> $))', '(($ <> $), $)', '(($, $) <> ($, $))', '(1, $, $)', '(($ = 1), ($ = 2))', '(($ <> $) = ($ <> $))']
+        prows = []
+        pexp = {}
+        def padd(src, want):
+            for st in progsuite.STORES:
+                cid = 'sh%d' % len(prows)
+                prows.append(['RUN', cid, st, vlib.esc(src), '-', '-'])
+                pexp[cid] = want
+        for v in VALS:
+            for sh in SHAPES:
+                lit = sh.replace('$', v)
+                padd(f'{v} ~> {{ {sh} == {lit} }}', 'T')
+                padd(f'{v} ~> {{ {lit} == {sh} }}', 'T')
+                padd(f'{v} ~> {{ {sh} != {lit} }}', 'F')
+                padd(f'{v} ~> {{ {sh} == {sh} }}', 'T')
+                # near miss: one copy fewer / a different last item
+                padd(f'{v} ~> {{ {sh} == {v} }}', 'T' if sh == '$' else None)
+                padd(f'{v} ~> {{ {sh} == ({lit} <> 9) }}', 'F')
+        pi_ = vlib.run_impl(prows, 'c11sh', per_case_s=5.0)
+        nsh = 0
+        for r in prows:
+            want = pexp[r[1]]
+            got = progsuite.parse_impl(pi_.get(r[1]))
+            ctx.distinct.add(('shared', r[2], r[3]))
+            if got['kind'] != 'ok':
+                ctx.fail('oracle', r, impl=pi_.get(r[1]), expect='a boolean', note=f'comparison of shared sub-values failed to run: {vlib.unesc(r[3])!r}')
+                continue
+            nsh += 1
+            if want is not None and got['value'] != want:
+                ctx.fail('oracle', r, impl=pi_.get(r[1]), expect=want, note=f'== depends on how the operands were created (a value used several times vs separate copies): {vlib.unesc(r[3])!r}')
+        tags['shared-subvalues(programs)'] = nsh
+        ctx.evaluations += len(prows)
     ctx.oblige('suite OP.Equal/OP.NotEqual (implementation = Lean model)', 'suite', dis == 0 and drv_ok, f'{dis} disagreement(s)')
     ctx.rule = ('Equal/NotEqual on: the complete type-pair matrix with all representatives (both stores); random value trees (depth <= 3, width <= 3) over units, booleans, ints, floats, chars, bytes, symbols, symbol lists, char lists, byte lists, pairs, lists, concatenations, '
-                'each compared with a separately built copy of itself (equal values at different addresses), with a near-miss mutant in both orders, and with another random value in both orders; lists vs the concatenation of their parts. '
+                'each compared with a separately built copy of itself (equal values at different addresses), with a near-miss mutant in both orders, and with another random value in both orders; lists vs the concatenation of their parts; programs that build an operand from several uses of ONE value (`$ <> $`, `($, $)`, `($ <> $) = ($ <> $)`, ...) and compare it with the same structure spelled out from separate copies, both orders, `!=`, near misses, on both stores. '
                 'Oracles: independent Python structural normal form, symmetry on every pair run both ways, != is the negation, register delta exactly 1; distinct = distinct (instr, A, B).')
     ctx.suites = {'OP.Equal+NotEqual': len(cases)}
     ctx.distribution = {'streams': tags}
